@@ -403,15 +403,17 @@ impl OptMon {
                 let mut seen: Vec<String> = vec![];
                 for (k, v) in o {
                     let kl = k.to_ascii_lowercase();
-                    let asked = rec.iter().find(|(n, _)| *n == kl);
-                    let asked = match asked {
-                        Some(a) => a,
+                    // a request may (against RFC 2347) carry an option more than once: then the OACK may as well,
+                    // and each of its values is held against the requested ones
+                    let asked_all: Vec<&(String, String)> = rec.iter().filter(|(n, _)| *n == kl).collect();
+                    let asked = match asked_all.first() {
+                        Some(a) => *a,
                         None => return Some(self.v("oack_unrequested_option", format!("OACK lists {k}={v}, which the request did not carry (sent: {:?})", self.sent))),
                     };
-                    if seen.contains(&kl) {
-                        return Some(self.v("oack_repeats_option", format!("OACK lists {k} twice")));
-                    }
                     seen.push(kl.clone());
+                    if seen.iter().filter(|s| **s == kl).count() > asked_all.len() {
+                        return Some(self.v("oack_repeats_option", format!("OACK lists {k} {} times, the request {} times", seen.iter().filter(|s| **s == kl).count(), asked_all.len())));
+                    }
                     let val = match numeric(v) {
                         Some(x) if !v.starts_with('+') => x,
                         _ => return Some(self.v("oack_bad_value", format!("OACK value {k}={v} is not a decimal number"))),
@@ -419,17 +421,17 @@ impl OptMon {
                     if !honourable(&kl, val) {
                         return Some(self.v("unhonourable_value_acknowledged", format!("OACK acknowledges {k}={v}, which the server cannot honour (requested {:?})", asked.1)));
                     }
-                    let asked_n = numeric(&asked.1);
+                    let asked_ns: Vec<u128> = asked_all.iter().filter_map(|a| numeric(&a.1)).collect();
                     match kl.as_str() {
                         "tsize" => {
-                            let want = if self.write { asked_n } else { Some(self.true_size as u128) };
-                            if want != Some(val) {
-                                return Some(self.v("oack_wrong_tsize", format!("OACK tsize={v}; expected {:?} ({})", want, if self.write { "echo of the client's value" } else { "true file size" })));
+                            let ok = if self.write { asked_ns.contains(&val) } else { val == self.true_size as u128 };
+                            if !ok {
+                                return Some(self.v("oack_wrong_tsize", format!("OACK tsize={v}; expected {} ({})", if self.write { format!("{asked_ns:?}") } else { self.true_size.to_string() }, if self.write { "echo of the client's value" } else { "true file size" })));
                             }
                         }
-                        _ => match asked_n {
-                            Some(a) if val <= a => {}
-                            _ => return Some(self.v("oack_exceeds_request", format!("OACK {k}={v} exceeds the requested {:?}", asked.1))),
+                        _ => match asked_ns.iter().max() {
+                            Some(a) if val <= *a => {}
+                            _ => return Some(self.v("oack_exceeds_request", format!("OACK {k}={v} exceeds the requested {:?}", asked_ns))),
                         },
                     }
                 }
